@@ -47,21 +47,24 @@ def model_jobs(tier):
     big = [('PerCall', 3, 3)] if tier == 'thorough' else [('PerCall', 3, 2), ('PerCall', 2, 3)]
     jobs = [(m, n, c, PROPS_ALL, ['ReqSpec', 'NoGraphWrite'], None) for (m, n, c) in big]
     jobs += [
-        # sequentially invisible, still a write to shared state: only the tripwire property sees it
+        # fine sequentially, still a write to shared state: only the tripwire property sees it
         ('MUT_SharedEncoder', 1, 3, ['ReturnsSolo'], [], None),
         ('MUT_SharedEncoder', 1, 2, [], ['NoGraphWrite'], 'NoGraphWrite'),
         ('MUT_SharedEncoder', 2, 2, ['ReturnsSolo'], [], 'ReturnsSolo'),
-        ('MUT_SharedEncoder', 2, 2, [], ['ReqSpec'], 'ReqSpec'),
         ('MUT_ResetAtEnd', 1, 2, ['ReturnsSolo'], [], 'ReturnsSolo'),
         ('MUT_SharedDefaultObject', 1, 2, ['ReturnsSolo'], [], 'ReturnsSolo'),
-        ('MUT_SharedDefaultObject', 1, 2, ['NoAliasOfGraph'], [], 'NoAliasOfGraph'),
-        ('MUT_SharedDefaultObject', 1, 2, ['GraphUnchanged'], [], 'GraphUnchanged'),
-        ('MUT_LazyInitRace', 1, 3, ['ReturnsSolo'], [], None),
         ('MUT_LazyInitRace', 1, 2, [], ['NoGraphWrite'], 'NoGraphWrite'),
         ('MUT_LazyInitRace', 2, 2, ['ReturnsSolo'], [], 'ReturnsSolo'),
         ('MUT_MutatesArgument', 1, 1, ['ArgsUnchanged'], [], 'ArgsUnchanged'),
-        ('MUT_MutatesArgument', 1, 1, [], ['ReqSpec'], 'ReqSpec'),
     ]
+    if tier == 'thorough':
+        jobs += [
+            ('MUT_SharedEncoder', 2, 2, [], ['ReqSpec'], 'ReqSpec'),
+            ('MUT_SharedDefaultObject', 1, 2, ['NoAliasOfGraph'], [], 'NoAliasOfGraph'),
+            ('MUT_SharedDefaultObject', 1, 2, ['GraphUnchanged'], [], 'GraphUnchanged'),
+            ('MUT_LazyInitRace', 1, 3, ['ReturnsSolo'], [], None),
+            ('MUT_MutatesArgument', 1, 1, [], ['ReqSpec'], 'ReqSpec'),
+        ]
     return jobs
 
 
@@ -132,10 +135,10 @@ def run_model(run, tier):
 # ----------------------------------------------------------------------------------------
 # modules
 
-def typegen_modules(run, tier, seed):
+def typegen_modules(run, tg, seed):
     """Random types from the grammar of supported ASN.1 (spec/TypeGen.tla, simulation), batched
     into modules; their boundary values become the valid inputs of the operation tables."""
-    num, depth, per_mod, nmods = (60, 4, 8, 2) if tier == 'quick' else (600, 5, 10, 14)
+    num, depth, per_mod, nmods = tg
     out, res = pl.tlc_generate(run, 'TypeGen', cc.typegen_cfg(depth, True, ['E', 'A', 'I'], extra_inv=False),
                                'typegen.ndjson', workers=2, simulate='num=%d' % num, depth=depth + 1,
                                what='TypeGen simulate num=%d depth %d (random types for C18)' % (num, depth))
@@ -164,15 +167,9 @@ def typegen_modules(run, tier, seed):
     return mods[:nmods]
 
 
-def build_modules(run, tier, seed):
-    variants = ['A', 'E'] if tier == 'quick' else ['A', 'E', 'I']
-    mods = [{'mid': 'fx' + v, 'src': 'fixed', 'text': ds.fixed_text(v), 'codecs': ALL_CODECS} for v in variants]
-    return mods + typegen_modules(run, tier, seed)
-
-
 # ----------------------------------------------------------------------------------------
 
-def pipeline_from_tables(run, mods, num, seed, max_ops, modes='seq,thr'):
+def pipeline_from_tables(run, mods, max_ops):
     mpath = run.path('modules.ndjson')
     pl.write_cases(mods, mpath)
     tshards = pl.drive(run, 'drive_stateless.py', mpath, 'tables', ['--mode', 'table', '--max-ops', str(max_ops)])
@@ -191,20 +188,33 @@ def pipeline_from_tables(run, mods, num, seed, max_ops, modes='seq,thr'):
     return tables, usable, tpath
 
 
+# tier -> (fixed module variants, TypeGen (num, depth, types per module, modules), schedules per TLC worker,
+#          operations per table, run the mechanism model)
+TIERS = {
+    'dev':      (['A'], None, 12, 100, False),                 # development / mutant demonstrations
+    'quick':    (['A', 'E'], (60, 4, 8, 2), 80, 120, True),
+    'thorough': (['A', 'E', 'I'], (600, 5, 10, 14), 1500, 200, True),
+}
+GEN_WORKERS = 4
+
+
 def c18(tier, seed):
     run = pl.Run('C18', tier, seed)
+    variants, tg, num, max_ops, with_model = TIERS[tier]
     try:
         with ThreadPoolExecutor(max_workers=1) as bg:
-            model_future = bg.submit(run_model, run, tier)
-            mods = build_modules(run, tier, seed)
-            num = 260 if tier == 'quick' else 6000
-            max_ops = 120 if tier == 'quick' else 200
-            tables, usable, tpath = pipeline_from_tables(run, mods, num, seed, max_ops)
-            out, res = pl.tlc_generate(run, 'Stateless', GEN_CFG, 'sched.ndjson', workers=4,
+            model_future = bg.submit(run_model, run, tier) if with_model else None
+            mods = [{'mid': 'fx' + v, 'src': 'fixed', 'text': ds.fixed_text(v), 'codecs': ALL_CODECS} for v in variants]
+            if tg:
+                mods += typegen_modules(run, tg, seed)
+            tables, usable, tpath = pipeline_from_tables(run, mods, max_ops)
+            # -simulate num=N generates N behaviours per worker
+            out, res = pl.tlc_generate(run, 'Stateless', GEN_CFG, 'sched.ndjson', workers=GEN_WORKERS,
                                        simulate='num=%d' % num, depth=110, env={'OPS_FILE': run.path('ops.json')},
-                                       what='Stateless Mech=Table simulate num=%d (schedules)' % num, timeout=3000)
+                                       what='Stateless Mech=Table simulate num=%dx%d (schedules)' % (num, GEN_WORKERS),
+                                       timeout=3000)
             cases = pl.dedup_cases(out, 's')
-            if len(cases) < num // 2:
+            if len(cases) < num:
                 raise pl.Machinery('TLC generated only %d schedules' % len(cases))
             cpath = run.path('cases.ndjson')
             pl.write_cases(cases, cpath)
@@ -212,7 +222,7 @@ def c18(tier, seed):
             reports = pl.validate(run, 'Trace_Stateless', TRACE_CFG, shards, what='Trace_Stateless')
             idx = pl.load_trace_index(shards)
             pl.classify(run, reports, idx, 'C18')
-            model = model_future.result()
+            model = model_future.result() if with_model else []
         account(run, idx, tables, usable, cases, model, mods)
         return pl.finish(run, rule=(
             'schedules are behaviours of spec/Stateless.tla (Mech = "Table", TLC -simulate, seed %d) over operation '
@@ -293,7 +303,7 @@ def replay_c18(rp, seed):
     try:
         case = rp['case']
         mod = {'mid': 'rp', 'src': 'ops', 'text': case['text'], 'codecs': [case['codec']], 'ops': case['ops']}
-        tables, usable, tpath = pipeline_from_tables(run, [mod], 1, seed, 10 ** 6)
+        tables, usable, tpath = pipeline_from_tables(run, [mod], 10 ** 6)
         steps = []
         # rebuild a global order of invocations from the recorded events (thread programs are kept)
         for e in case['events']:
